@@ -66,6 +66,8 @@ func spellSeg(g string, i int) string {
 		return "("
 	case "rparen":
 		return ")"
+	case "hashOp":
+		return "#>"
 	case "strKw":
 		return "'select  from'"
 	case "strMulti":
